@@ -154,7 +154,7 @@ pub fn render_time(ns: i128, style: (i64, u8, usize)) -> String {
     crate::props_direct::render_iso(y, m, d, sod / 3600, sod % 3600 / 60, sod % 60, seps & 15, &frac, &zone)
 }
 
-const METHODS: [&str; 7] = ["GET", "POST", "PUT", "DELETE", "HEAD", "PATCH", "OPTIONS"];
+const METHODS: [&str; 10] = ["GET", "POST", "PUT", "DELETE", "HEAD", "PATCH", "OPTIONS", "get", "PROPFIND", "M-SEARCH"];
 
 pub fn random_logical(rng: &mut Rng) -> Logical {
     let seg_byte = |rng: &mut Rng| -> u8 {
@@ -189,7 +189,7 @@ pub fn random_logical(rng: &mut Rng) -> Logical {
         let v: Vec<u8> = (0..rng.below(5)).map(|_| seg_byte(rng)).collect();
         query.push((k, v));
     }
-    let fold = !s3 && rng.chance(1, 3);
+    let fold = if s3 { rng.chance(1, 6) } else { rng.chance(1, 3) };
     let is_form = rng.chance(1, 3);
     let (form, content_type, body) = if is_form {
         let mut f = Vec::new();
@@ -411,7 +411,12 @@ pub fn sign_and_spell(l: &Logical, rng: &mut Rng, sp: &Spelling, now: (i64, u32)
         uri.push_str(std::str::from_utf8(&wire_query).expect("spelled query is ASCII"));
     }
     if rng.chance(1, 6) {
-        uri = format!("https://example.amazonaws.com{}", uri);
+        // absolute-form request target; with an empty path when the logical path is the root
+        if l.segments.is_empty() && rng.chance(1, 2) {
+            uri = format!("https://example.amazonaws.com{}", &uri[1..]);
+        } else {
+            uri = format!("https://example.amazonaws.com{}", uri);
+        }
     }
 
     if l.carrier == Carrier::Header {
